@@ -15,7 +15,7 @@
      session up of N2 / CE               full transfer
    A route is never sent to the neighbour it was learned from.
 
-   Defects (CONSTANT, a subset of {"D1","D2","D3"}) switches in the code's known deviations, each
+   Defects (CONSTANT, a subset of {"D1","D2","D3","D4"}) switches in the code's known deviations, each
    a named branch below (see findings_proposed/C17-*.md):
      D1  a membership withdraw that leaves no membership for that target withdraws EVERY route
          carrying the target, also those another membership of the neighbour still matches
@@ -23,6 +23,10 @@
          (as announcements) instead of withdrawing them
      D3  a VPN route replaced by one that the CE's VRF no longer imports is not withdrawn from
          the CE
+     D4  there is no per-VRF route selection: VPN routes are forwarded to the CE one VPN NLRI at
+         a time, so when two imported VPN routes (different RD) have the same IP prefix the
+         withdrawal of one removes the prefix from the CE although the other is still imported
+         (without D4 the mechanism re-announces a remaining imported route for the prefix)
    With Defects = {} TLC checks (MCVrfRtc) that the mechanism implements the property layer. *)
 EXTENDS VrfRtc
 
@@ -58,7 +62,11 @@ FanCE(O, N, w, W) ==
                                         /\ \/ SameKey(N, q) = {}
                                            \/ /\ "D3" \notin Defects        \* prePolicyFilterpath returns early
                                               /\ \A n \in SameKey(N, q) : ~Imports(w, n)}}
-  IN ApplyCe(W, {[x |-> a.x, v |-> a.v] : a \in A}, WX)
+      Wc   == ApplyCe(W, {[x |-> a.x, v |-> a.v] : a \in A}, WX)
+      Cand == {[x |-> r.x, v |-> r.v] : r \in {q \in N : q.src # "CE" /\ Imports(w, q)}}
+      Miss == {c.x : c \in Cand} \ {e.x : e \in Wc}
+  IN IF "D4" \in Defects THEN Wc
+     ELSE Wc \cup {CHOOSE c \in Cand : c.x = x : x \in Miss}
 
 (* fan-out of the change of the relations made by the current step (VpnRoutes' is the new set) *)
 Fan ==
@@ -78,7 +86,10 @@ MDown(p) ==
   /\ PDown(p)
   /\ IF p = "N1" THEN UNCHANGED <<wN1, wN2, wCE>> ELSE Fan
 
-MCeUp   == PCeUp /\ wCE' = CeExport /\ UNCHANGED <<wN1, wN2>>
+(* full transfer to the CE: when two imported routes share a prefix the later one in the table
+   walk (unordered) wins - any one-per-prefix selection d is possible *)
+CeDumps  == {d \in SUBSET CeExport : CeOk(d)}
+MCeUp(d) == PCeUp /\ d \in CeDumps /\ wCE' = d /\ UNCHANGED <<wN1, wN2>>
 MCeDown == PCeDown /\ Fan
 
 MVAnn(r) == PVAnn(r) /\ Fan
@@ -122,5 +133,5 @@ MTick(d) ==
 (* design level: the mechanism implements the property layer *)
 D_RtcExact == up["N1"] => IF wait THEN wN1 \subseteq RtcExport("N1") ELSE wN1 = RtcExport("N1")
 D_AllExact == up["N2"] => wN2 = AllExport("N2")
-D_CeExact  == up["CE"] => wCE = CeExport
+D_CeExact  == up["CE"] => CeOk(wCE)
 =============================================================================
